@@ -117,6 +117,7 @@ struct Transport::Impl
   {
     std::condition_variable cv;
     bool done{false};
+    bool abandoned{false}; // the caller timed out and is closing the session (guarded by syncMutex)
     ConnectResult result{ConnectResult::err(TransportErrorInfo{TransportError::Timeout, "pending"})};
   };
   std::mutex syncMutex;
@@ -318,9 +319,15 @@ struct Transport::Impl
           if (it != pendingConnects.end())
           {
             op = it->second;
-            op->result = ConnectResult::ok(sid);
-            op->done = true;
-            pendingConnects.erase(it);
+            if (!op->abandoned)
+            {
+              op->result = ConnectResult::ok(sid);
+              op->done = true;
+              pendingConnects.erase(it);
+            }
+            // else: the caller already timed out and is closing this session. Keep the
+            // entry so that the close that follows is suppressed as well - the session
+            // id was never handed to anyone.
           }
         }
         // Notify outside syncMutex — avoids the woken thread immediately
@@ -855,6 +862,10 @@ inline ConnectResult Transport::connectSync(const std::string &host, std::uint16
   // returning so connectGuard's dtor (the activeConnects decrement, a syncMutex-
   // guarded mutation) runs UNDER the lock — it destructs before `lk` because it
   // is declared after it.
+  // From here on a late onConnect must not consume the pending entry: it is what
+  // keeps the global connect/close callbacks from firing for a session id that this
+  // call never returned.
+  op->abandoned = true;
   lk.unlock();
   _impl->engine->close(sid);
   lk.lock();
